@@ -189,8 +189,32 @@ def r08_2(ctx: Ctx) -> None:
            "the gene is first added as a member (with the containment refusal of the base class)", form="")
 
 
+def r08_3(ctx: Ctx) -> None:
+    from .bisect_lint import scan_bounds
+    count = 0
+    for qual in ("Record._link_cds_to_parent", "Record.get_cds_features_within_location",
+                 "Record.get_cds_features_within_location.find_start_in_list"):
+        func = ctx.fn(REC, qual)
+        for node, role, kind, ok in scan_bounds(func):
+            count += 1
+            ctx.ob("R08.3", REC, node, qual, f"{role} bound of {txt(node)[:50]}", ok,
+                   "a window over the sorted feature list runs from the lower bisection point to the upper bisection point, so "
+                   "features tying with the searched one are inside the window",
+                   detail="" if ok else f"the {role} bound derives from bisect_{kind}", form=f"{txt(node)} [{role}: bisect_{kind}]")
+    helper = ctx.fn(REC, "Record.get_cds_features_within_location.find_start_in_list")
+    ok = "bisect.bisect_left(features, dummy)" in txt(helper) and \
+        any(isinstance(n, ast.While) and "location.start == location.start" in txt(n.test).replace("features[index - 1].", "")
+            or isinstance(n, ast.While) and ".location.start == location.start" in txt(n.test) for n in walk_local(helper))
+    ctx.ob("R08.3", REC, helper, "Record.get_cds_features_within_location.find_start_in_list", "ties at the start included", ok,
+           "the lookup starts at the lower bisection point and walks back over genes sharing the query's start", form="")
+    if count < 2:
+        raise AnalysisError(f"record.py: expected at least 2 bisection-bounded windows, found {count}")
+
+
 def run(ctx: Ctx) -> None:
     ctx.rule("R08.1", "gene-after-area and area-after-gene linking visit the same collections, on every path", floor=14)
     ctx.rule("R08.2", "add_cds refuses, forwards to children, and records defining genes under core and product", floor=6)
     r08_1(ctx)
     r08_2(ctx)
+    ctx.rule("R08.3", "bisection windows over the sorted gene/region lists include ties", floor=3)
+    r08_3(ctx)
